@@ -132,6 +132,30 @@ pub fn compare_row(
     true
 }
 
+/// Grouping equality (GROUP BY / DISTINCT): like [`compare_row`], except that
+/// NULLs are NOT distinct from each other — all NULL keys form one group.
+/// Join probes keep using [`compare_row`] (a NULL key never matches).
+#[inline]
+pub fn compare_row_nulls_equal(
+    arrays_a: &[ArrayRef],
+    row_a: usize,
+    arrays_b: &[ArrayRef],
+    row_b: usize,
+) -> bool {
+    for (a, b) in arrays_a.iter().zip(arrays_b.iter()) {
+        match (a.is_null(row_a), b.is_null(row_b)) {
+            (true, true) => continue,
+            (false, false) => {
+                if !compare_array_values(a, row_a, b, row_b) {
+                    return false;
+                }
+            }
+            _ => return false,
+        }
+    }
+    true
+}
+
 /// Compare a single value between two arrays at given rows.
 #[inline]
 fn compare_array_values(a: &ArrayRef, row_a: usize, b: &ArrayRef, row_b: usize) -> bool {
